@@ -31,7 +31,9 @@ from . import common as C
 
 TRACE = True
 TRUSTED = [
-    "virtual-time simulator (harness/vsim.py): fake transports, integer-millisecond clock, one IPv4 socket per instance; OSError from real sockets is not modelled",
+    "virtual-time simulator (harness/vsim.py): fake transports, integer-millisecond clock, one IPv4 socket per instance (IPv6 sources are delivered to its listener as "
+    "4-tuples with flowinfo and scope id, so the unpacking, the scoped records and the scoped address handling of lookups run; replies to them are not sent by the IPv4 "
+    "transport); OSError from real sockets is not modelled",
     "the Lean host model treats the record manager / browser callbacks / lookup listeners, the answer computation of the query handler and the outgoing queues as "
     "uninterpreted components (named hypotheses of C15_total_partial); they are exercised only by the fuzz streams of stage O",
     "text layer of names: '.'.join(labels) followed by split('.') is modelled as splitting every decoded label at U+002E (compared per datagram by `c15enc`)",
@@ -52,6 +54,7 @@ SELF_IP = "10.0.0.1"
 PEER = "10.0.0.2"
 IPS = ["10.9.9.9", PEER, SELF_IP, "10.9.9.9"]
 PORTS = [5353, 5353, 5353, 40000, 53, 1, 65535]
+SRC6 = [("fe80::2", 5353, 0, 3), ("fe80::2", 5353, 0, 0), ("fe80::9", 5353, 0, 3), ("fe80::a", 40000, 0, 2), ("fe80::b", 5353, 7, 0), ("2001:db8::1", 5353, 0, 0), ("fe80::c", 53, 0, 9)]
 GAPS = [0, 0, 0, 1, 5, 50, 120, 300, 450, 999, 1000, 1200, 5000, 11000]
 MAXLEN = 8966
 
@@ -132,7 +135,9 @@ def query_packet(rng, names):
     if rng.random() < 0.1:
         body += rr(wname(labels_of("s1." + TA)), 33, 1, 120, struct.pack(">HHH", 0, 0, 80) + wname(labels_of("other.local.")))
         nau = 1
-    return hdr(rng.randrange(65536), flags, nq, nan, nau) + body
+    # 16-bit boundary ids as well (the id is echoed into unicast replies)
+    id_ = rng.choice([rng.randrange(65536), rng.randrange(65536), 0, 1, 127, 128, 129, 255, 256, 0x7FFF, 0x8000, 0xFFFF])
+    return hdr(id_, flags, nq, nan, nau) + body
 
 
 def resp_packet(rng, hostile):
@@ -179,9 +184,32 @@ def lookup_resp(rng):
         recs.append(rr(inst, 33, 0x8001, 120, struct.pack(">HHH", 0, 0, 8080) + host))
     if rng.random() < 0.8:
         recs.append(rr(inst, 16, 0x8001, 4500, b"\x03a=b"))
-    if rng.random() < 0.6:
-        recs.append(rr(host, 1, 0x8001, 120, socket.inet_aton("10.0.0.7")))
+    # address records of the lookup's server with rdata of every length around the two legal ones (4, 16): the lookup's address branch
+    # (`_process_record_threadsafe`, scoped and unscoped) sees well-formed and malformed addresses while it is listening
+    for _ in range(rng.choice([0, 1, 1, 2])):
+        t = rng.choice([1, 28])
+        n = rng.choice([0, 3, 4, 4, 15, 16, 16, 17])
+        recs.append(rr(host, t, rng.choice([0x8001, 1]), rng.choice([120, 0, 1]),
+                       bytes(rng.choice([0xFE, 0x80, 0, 10, rng.randrange(256)]) for _ in range(n))))
+    rng.shuffle(recs)
     return hdr(0, 0x8400, 0, len(recs)) + b"".join(recs)
+
+
+def lookup_trunc(rng):
+    """a valid response for the lookup in progress (SRV x.TB -> hx.local., TXT, and a final A or AAAA record of hx.local.), cut
+    at a random offset inside the rdata of the LAST record: the decoder slices silently, so the record survives with an
+    address of 0..15 bytes (4 bytes parse as IPv4)"""
+    inst = wname([b"x"] + labels_of(TB))
+    host = wname([b"hx", b"local"])
+    recs = [rr(inst, 33, 0x8001, 120, struct.pack(">HHH", 0, 0, 8080) + host)]
+    if rng.random() < 0.5:
+        recs.append(rr(inst, 16, 0x8001, 4500, b"\x03a=b"))
+    t = rng.choice([28, 28, 28, 1])
+    full = bytes([0xFE, 0x80] + [0] * 13 + [7]) if t == 28 else socket.inet_aton("10.0.0.7")
+    recs.append(rr(host, t, 0x8001, 120, full))
+    pkt = hdr(0, 0x8400, 0, len(recs)) + b"".join(recs)
+    cut = rng.randrange(len(full) + 1)          # bytes of the last rdata that are kept: 0 .. len (len = untruncated)
+    return pkt[:len(pkt) - len(full) + cut]
 
 
 CYC = "cyc"          # an instance of the browsed type that is announced / withdrawn / re-announced inside the streams
@@ -218,7 +246,7 @@ def burst_packets(rng, names):
 REP_GAPS = [300, 900, 900, 999, 1000, 1001]
 REP_SRCS = [("10.9.9.9", 40000), (PEER, 40000), ("10.7.7.7", 40001), (PEER, 53), ("10.9.9.9", 40002)]
 
-KINDS = ["cycle", "cycle", "cycle", "burst", "burst", "canrep", "canrep", "rand", "c02valid", "c02mut", "c02out", "c02outmut", "graph", "chain", "live", "livemut", "livemut", "query", "query", "querymut",
+KINDS = ["cycle", "cycle", "cycle", "burst", "burst", "canrep", "canrep", "lookuptrunc", "lookuptrunc", "rand", "c02valid", "c02mut", "c02out", "c02outmut", "graph", "chain", "live", "livemut", "livemut", "query", "query", "querymut",
          "resp", "hostile", "hostile", "lookup", "d8", "d8b", "oversize", "repeat"]
 
 
@@ -239,10 +267,14 @@ def gen_item(rng, live, names, last, k=None):
     elif k == "c02mut":
         p, w = c02.gen_valid(rng)
         d = c02.mutate(rng, p, w)
-    elif k == "c02out":
-        d = c02.gen_outgoing(rng)
-    elif k == "c02outmut":
-        d = c02.mutate(rng, c02.gen_outgoing(rng))
+    elif k in ("c02out", "c02outmut"):
+        # built with the library's own encoder: on a tree where that raises, fall back to a wire-built message (the harness must not crash)
+        try:
+            d = c02.gen_outgoing(rng)
+        except Exception:
+            d = c02.gen_valid(rng)[0]
+        if k == "c02outmut":
+            d = c02.mutate(rng, d)
     elif k == "graph":
         d = c02.gen_graph(rng)
     elif k == "chain":
@@ -261,6 +293,8 @@ def gen_item(rng, live, names, last, k=None):
         d = resp_packet(rng, True)
     elif k == "lookup":
         d = lookup_resp(rng)
+    elif k == "lookuptrunc":
+        d = lookup_trunc(rng)
     elif k == "d8":
         d = d8_packet(rng.choice([21, 22, 40, 63] + EDGE_LABELS), rng.choice(names), rng.randrange(65536))
     elif k == "d8b":
@@ -443,28 +477,34 @@ def simulate(case):
         fam_q = hdr((case.get("canary_id", 4242) + 7) & 0xFFFF, 0, 1) + q(labels_of(infos[0].name), 33)
 
         def replied_to(n0, src):
-            """was a response carrying the first service's SRV sent to `src` since log position n0?"""
+            """was a response datagram sent to `src` since log position n0?  (Only the QR bit is looked at: when the query is assembled with a
+            deferred truncated packet of the same address, the reply echoes *that* packet's questions, and a root-name question is written back
+            as `00 00`, which makes the rest of the reply unreadable -- the reply was still sent, which is what the duplicate rule is about.)"""
             for (tm, s_, ip, p_, d_) in sim.net.log[n0:]:
-                if (ip, p_) != tuple(src):
-                    continue
-                try:
-                    m = DNSIncoming(d_)
-                    if m.valid and not m.is_query() and any(x.type == 33 and x.ttl > 0 and x.name.lower() == infos[0].name.lower() for x in m.answers()):
-                        return True
-                except Exception:
-                    pass
+                if (ip, p_) == tuple(src[:2]) and len(d_) >= 12 and d_[2] & 0x80:
+                    return True
             return False
         browsers = [AsyncServiceBrowser(zc, [TB], listener=L()), AsyncServiceBrowser(zc, [TB, TA] if case["browse_own"] else [TB], handlers=[handler])]
         await sim.sleep_ms(case["start"])
         lookup = None
         lookup_res = {}
+        streaming = {"on": True}
         if case["lookup"]:
             async def do_lookup():
-                si = AsyncServiceInfo(TB, "x." + TB)
-                try:
-                    lookup_res["ok"] = bool(await si.async_request(zc, 3000))
-                except Exception as e:
-                    lookup_res["raised"] = exc_name(e)
+                # a lookup is in progress during the whole stream: a new request starts 0.7 s after the previous one ended
+                runs = 0
+                while True:
+                    si = AsyncServiceInfo(TB, "x." + TB)
+                    try:
+                        lookup_res["ok"] = bool(await si.async_request(zc, 3000))
+                    except Exception as e:
+                        lookup_res["raised"] = exc_name(e)
+                        return
+                    runs += 1
+                    lookup_res["runs"] = runs
+                    if not streaming["on"] or runs >= 400:
+                        return
+                    await asyncio.sleep(0.7)
             lookup = asyncio.ensure_future(do_lookup())
         last = None
         if "items" in case:
@@ -496,6 +536,9 @@ def simulate(case):
                 else:
                     kind, data = gen_item(rng, live, names, last, kind0)
                     src = (rng.choice(IPS), rng.choice(PORTS))
+                    if rng.random() < (0.5 if kind in ("lookup", "lookuptrunc", "resp", "hostile") else 0.2):
+                        # an IPv6 source: the socket layer hands the listener a 4-tuple (address, port, flowinfo, scope id)
+                        src = rng.choice(SRC6)
                     if kind == "d8":
                         src = (src[0], rng.choice([40000, 40000, 5353]))
                     subs = [(rng.choice(GAPS), kind, data, src)]
@@ -511,7 +554,8 @@ def simulate(case):
                     obs["escapes"].append({"index": len(obs["items"]) - 1, "exc": r, "kind": kind, "len": len(data)})
                 if data == fam_q:
                     obs["fam"].append({"index": len(obs["items"]) - 1, "t": sim.now(), "src": list(src),
-                                       "replied": replied_to(n_log, src) if src[1] != 5353 else None})
+                                       "replied": replied_to(n_log, src) if src[1] != 5353 and ":" not in src[0] else None})
+        streaming["on"] = False
         await sim.sleep_ms(case["tail"])
         obs["live"] = len(live)
         # ---- canaries 1a/1b: well-formed queries are still answered -- through the aggregated multicast path (QM PTR) and through
